@@ -84,18 +84,19 @@ def main() -> int:
     SP = dict(nslides=2, args=("none",), vias=("samepath",))
     # a deck that already holds ten pictures (image1 .. image10): the next images' sequence numbers are found among two-digit names
     MANY = dict(nslides=1, args=("none",), vias=("stream",), npre=10)
+    ALLPNG = [i + 1 for i, sp in enumerate(_M._SPECS) if sp[0] == "PNG"]
     if thorough:
         cfgs = [("a", 3, ALLI(4), ALL, None, {}), ("b", 2, ALLI(NGEN), ["addPicture", "reopen"], None, {}),
                 ("gc", 5, PNGS + [2], ["addPicture", "removeLayout", "reopen", "save"], None, GC),
                 ("samepath", 4, SAME, ["addPicture", "reopen"], None, SP),
-                ("many", 3, ALLI(13), ["addPicture", "reopen", "save"], None, MANY),
+                ("many", 3, ALLPNG[:13], ["addPicture", "reopen", "save"], None, MANY),
                 ("sim", 8, ALLI(NGEN), ALL + ["removeLayout"], "num=1500", dict(logo=1))]
     else:
         cfgs = [("a", 2, ALLI(3), ALL, None, {}), ("b", 1, ALLI(NGEN), ["addPicture", "insertPicture"], None, {}),
                 ("c", 3, ALLI(2), ["addPicture", "reopen", "addOle", "addMovie"], None, {}),
                 ("gc", 4, PNGS, ["addPicture", "removeLayout", "reopen"], None, GC),
                 ("samepath", 3, SAME, ["addPicture", "reopen"], None, SP),
-                ("many", 2, ALLI(12), ["addPicture", "reopen"], None, MANY),
+                ("many", 2, ALLPNG[:12], ["addPicture", "reopen"], None, MANY),
                 ("sim", 7, ALLI(NGEN), ALL + ["removeLayout"], "num=150", dict(logo=1))]
     jobs, per = [], {}
     states = trans = 0
